@@ -202,6 +202,11 @@ int main() {
                    << hexstr(pos.move_string(m, false)) << ':' << hexstr(pos.move_string(m, true)) << ':'
                    << hex(pos.predict_hash(m));
             }
+        } else if (cmd == "predict1") {
+            // predict_hash of one move, nothing else queried
+            std::uint32_t c;
+            in >> c;
+            os << "P " << hex(pos.predict_hash(decode(c)));
         } else if (cmd == "parse") {
             std::string h;
             in >> h;
